@@ -201,7 +201,14 @@ def check_can_recycle_compares_roles(ctx, consequence_fmt: str):
     for p, getter in (("inp_paths", "inp_paths"), ("env_deps", "env_deps"), ("out_paths", "out_paths"), ("vol_paths", "vol_paths")):
         ctx.check(compared.get(p) == getter, cr.fq, f"{p} compared with its own stored counterpart", consequence_fmt.format(p=p), "compared")
     # the stored counterpart is the *initial* declaration: `dynamic=False` excludes what the step amended while running
-    for c in calls_in(cr.node):
+    # (only the calls whose result is compared with the declaration: a scan of all inputs for another purpose is not one)
+    held_values = [a.value for a in ast.walk(cr.node) if isinstance(a, ast.Assign) and len(a.targets) == 1 and isinstance(a.targets[0], ast.Name) and a.targets[0].id in holds and a.targets[0].id in {n for c in ast.walk(cr.node) if isinstance(c, ast.Compare) for n in [x.id for x in [c.left, *c.comparators] if isinstance(x, ast.Name)]}]
+    held_values += [x for r in ast.walk(cr.node) if isinstance(r, ast.Return) and isinstance(r.value, ast.Compare) for x in [r.value.left, *r.value.comparators]]
+    seen_calls = set()
+    for c in [c for v in held_values for c in calls_in(v)]:
+        if id(c) in seen_calls:
+            continue
+        seen_calls.add(id(c))
         if callee_name(c) in ("inp_paths", "env_deps", "out_paths", "vol_paths") and isinstance(c.func, ast.Attribute) and ast.unparse(c.func.value) == "self":
             k = [kw for kw in c.keywords if kw.arg == "dynamic"]
             ctx.check(bool(k) and ast.unparse(k[0].value) == "False", cr.fq, f"{ast.unparse(c)} selects the initial declaration", consequence_fmt.format(p=callee_name(c)) + " (amended paths are compared with a declaration that cannot contain them: a step that amended anything is never recycled, or the reverse)", "dynamic=False")
